@@ -10,7 +10,9 @@ OUT=/verif/sensitivity.json
 echo "[" > $OUT.tmp; first=1; missed=0
 for d in seeded/${1:-}*/; do
   name=$(basename $d)
-  prop=$(python3 -c "import json;print(json.load(open('$d/meta.json'))['breaks_property'])")
+  # the check that decides: that of the property the change was aimed at, unless meta.json names the check of a
+  # neighbouring property (decided_by) because the defect lies in that property's territory
+  prop=$(python3 -c "import json;m=json.load(open('$d/meta.json'));print(m.get('decided_by', m['breaks_property']))")
   git -C /repo apply "/verif/$d/patch.diff" || { echo "HARNESS-ERROR: $name does not apply"; git -C /repo checkout -- .; exit 2; }
   t0=$(date +%s)
   out=$(./check $prop quick 2>&1); code=$?
